@@ -216,7 +216,9 @@ pub fn explore<S: System>(mk: impl Fn() -> S + Sync, cfg: &ExploreCfg) -> Explor
             break;
         }
         // expand one BFS level in parallel
-        let chunk = frontier.len().div_ceil(jobs * 4).max(1);
+        // small frontiers are expanded inline: spawning threads costs more than it saves
+        let workers = if frontier.len() < 96 { 1 } else { jobs.min(frontier.len() / 48).max(1) };
+        let chunk = frontier.len().div_ceil(workers).max(1);
         let mk_ref = &mk;
         let results: Vec<(Vec<Succ<S::Op>>, u64, u64)> = std::thread::scope(|sc| {
             let handles: Vec<_> = frontier
@@ -302,7 +304,8 @@ pub fn explore<S: System>(mk: impl Fn() -> S + Sync, cfg: &ExploreCfg) -> Explor
 
         // liveness / quiescence clauses on every new distinct state
         if cfg.check_finish && !next.is_empty() {
-            let chunk = next.len().div_ceil(jobs * 4).max(1);
+            let workers = if next.len() < 96 { 1 } else { jobs.min(next.len() / 48).max(1) };
+            let chunk = next.len().div_ceil(workers).max(1);
             let fails: Vec<Vec<(Fail, Vec<S::Op>)>> = std::thread::scope(|sc| {
                 let hs: Vec<_> = next
                     .chunks(chunk)
